@@ -283,10 +283,27 @@ func init() {
 		for _, v := range in {
 			after = append(after, func(v %s) int { return %s }(v))
 		}
+		if !isNil {
+			// the same elements as a prefix of a longer backing array (xs[:k], a slice grown by append):
+			// the result and the calls of f must be the same
+			in2 := make([]%s, len(ids), len(ids)+3)
+			copy(in2, in)
+			var log2 []int
+			res2 := %s(func(v %s) %s {
+				id := %s
+				log2 = append(log2, id)
+				x := fn(id)
+				return %s
+			}, in2)
+			if !reflect.DeepEqual(res, res2) || !reflect.DeepEqual(log, log2) {
+				out = append(out, -424242, len(res2)) // result depends on the spare capacity of the input
+			}
+		}
 		return
 	}
 }
-`, in.a.name+"/"+in.b.name, in.a.typ, in.a.typ, in.a.typ, in.a.enc, fn, in.a.typ, in.b.typ, in.a.dec, in.b.enc, in.b.dec, in.a.typ, in.a.dec)
+`, in.a.name+"/"+in.b.name, in.a.typ, in.a.typ, in.a.typ, in.a.enc, fn, in.a.typ, in.b.typ, in.a.dec, in.b.enc, in.b.dec, in.a.typ, in.a.dec,
+			in.a.typ, fn, in.a.typ, in.b.typ, in.a.dec, in.b.enc)
 	}
 	for _, b := range allCarriers {
 		fn := "fmapstr_" + b.name
